@@ -300,7 +300,8 @@ def run_case(ch: Choices, params: dict) -> dict:
     probes = {"unreachable_cycle": 0, "borrowed_exit_unreachable": 0, "dummy_edges": 0,
               "requeued>=3": 0, "schedule_differs_from_lowest": 0, "maybe_entry_strict": 0,
               "nested_function": 0, "exit_disconnected": 0, "with_block": 0, "comprehension": 0,
-              "nested_cfg_under_test": 0, "comprehension_shadows_outer_name": 0}
+              "nested_cfg_under_test": 0, "comprehension_shadows_outer_name": 0,
+              "analysis_with_other_inputs_in_between": 0}
     trace: dict = {}
     if source_mode:
         from sim.props import c09_source
@@ -405,9 +406,31 @@ def run_case(ch: Choices, params: dict) -> dict:
     results = []
     schedules = []
     steps = 0
+    # The same CFG object is analysed K times.  One call in between may use a different
+    # set of borrowed variables: its result must be right for ITS inputs, and it must not
+    # leave anything behind for the calls that follow (history of analyses on one CFG).
+    detour = ch.draw(K, "detour_at") if inout and K > 2 and ch.draw(3, "detour") == 0 else -1
     for k in range(K):
         pol = "lowest" if k == 0 else ch.pick(sched.POLICIES, "policy")
         sch = sched.Scheduler(pol, ch, starve=ch.draw(n, "starve") if pol == "starve" else 0)
+        if k == detour and k > 0:
+            sub = [v for v in inout if ch.draw(2, "detour_keep")]
+            probes["analysis_with_other_inputs_in_between"] = 1
+            try:
+                dres = analyse(cfg, entry_def, maybe_entry, sub, sch, max(vs_n, 1))
+                dlive, _dd, _dm, _dr = reference(n, succ, used, assigned, entry_def, maybe_entry,
+                                                 sub, exit_idx, entry_idx)
+                bad = next((i for i in range(n) if dres[0][i] != dlive[i]), None)
+                if bad is not None:
+                    viol.append({"cls": "C09/LIVE_" + ("MISSING" if dlive[bad] - dres[0][bad] else "EXTRA"),
+                                 "sig": {"mode": mode, "dummy": n_dummy > 0},
+                                 "expected": {f"live_before[{bad}] (inout={sub})": sorted(dlive[bad])},
+                                 "observed": {f"live_before[{bad}]": sorted(dres[0][bad])},
+                                 "detail": {"schedule": {"policy": pol, "pops": sch.pops},
+                                            "analysis": "in-between call with other borrowed variables"}})
+            except sched.NoConvergence:
+                pass
+            sch = sched.Scheduler(pol, ch, starve=0)
         try:
             res = analyse(cfg, entry_def, maybe_entry, inout, sch, max(vs_n, 1))
         except sched.NoConvergence:
